@@ -31,12 +31,12 @@ ASSUMPTIONS = ["phase relations are asserted where the *discretised* model is co
 
 
 def budget(tier):
-    return {"cases": 160 if tier == "quick" else 2400, "shards": 16, "wall": 900 if tier == "quick" else 3300}
+    return {"cases": 224 if tier == "quick" else 2400, "shards": 16, "wall": 900 if tier == "quick" else 3300}
 
 
 @st.composite
 def _cases(draw):
-    kind = draw(st.sampled_from(["translate", "rotate", "reflect", "phase_offset", "phase_offset", "serialize", "phase_negate"]))
+    kind = draw(st.sampled_from(["translate", "rotate", "reflect", "phase_offset", "phase_offset", "phase_offset", "serialize", "phase_negate"]))
     backend = draw(st.sampled_from(["sv", "mps"]))
     if kind in ("phase_negate", "phase_offset"):
         # The emulators interpolate the sampled phase between pulses and Pulser stores 0 where the amplitude is 0 and
@@ -64,6 +64,8 @@ def _cases(draw):
             T_all = sum(build.wf_duration(o["amp"]) for o in seq["ops"])
             seq["local"] = draw(st.sampled_from(seq["reg"]["ids"]))
             phs = list(draw(st.permutations([0.0, 0.4, 1.3, 0.9])))
+            if draw(st.booleans()):
+                phs[0] = 0.0  # atoms at phase exactly 0 next to an atom with a non-zero phase from the very first step
             seq["ops"] = [dict(o, protocol="no-delay", phase=phs[i % 4]) for i, o in enumerate(seq["ops"])]
             seq["ops"].insert(0, {"t": "pulse", "ch": "l", "amp": {"k": "const", "d": T_all, "v": draw(st.sampled_from([2.0, 5.0]))},
                                   "det": {"k": "const", "d": T_all, "v": 0.0}, "phase": draw(st.sampled_from([0.0, 0.7, 1.3])), "protocol": "no-delay"})
